@@ -12,7 +12,7 @@ import (
 
 func init() {
 	props["C18"] = &propDef{
-		rule: "cases = the complete grid of AudioSpecificConfig values the library supports (13 table + 64 explicit 24-bit frequencies incl. 1, 2^24-1 and table neighbours x 16 channel configurations x object types 2/5/29 x extension frequencies), every ADTS header (13 indices x 8 channel configs x payload 0..8184), ADTS junk prefixes 0..187 bytes (random and ff-heavy), AAC sample entries via SetAACDescriptor; non-trivial = distinct case with an explicit frequency, or a payload >= 4089, or a non-empty junk prefix, or an HE-AAC object type",
+		rule: "cases = the complete grid of AudioSpecificConfig values the library supports (13 table + 64 explicit 24-bit frequencies incl. 1, 2^24-1 and table neighbours x 16 channel configurations x object types 2/5/29 x extension frequencies), every ADTS header (13 indices x 8 channel configs x payload 0..8184), ADTS junk prefixes 0..187 bytes (random and ff-heavy), AAC sample entries via SetAACDescriptor, alone and in sequences (several tracks of one init / successive inits, all built before any is inspected or encoded); non-trivial = distinct case with an explicit frequency, or a payload >= 4089, or a non-empty junk prefix, or an HE-AAC object type",
 		gen:  genC18,
 		exec: execC18,
 	}
@@ -264,7 +264,141 @@ func genC18(c *Ctx) {
 			}
 		}
 	}
-	genC18Esds(c, freqs) // esds descriptor model correspondence (c18model.go)
+	genC18AACSeq(c, freqs) // several AAC sample entries built before any of them is inspected
+	genC18Esds(c, freqs)   // esds descriptor model correspondence (c18model.go)
+}
+
+// ---- AAC sample entries in sequences: the clause "an AAC sample entry built from a configuration decodes back to that
+// configuration" holds for every entry an application builds, not only for the one built last. A sequence is a list of
+// configurations spread over one or more init segments (tracks of a multi-track init, or the next init); ALL
+// SetAACDescriptor calls are made first, then every entry is inspected in memory, then every init is encoded, decoded and
+// every entry inspected again.
+
+type aacCfg struct {
+	ot byte
+	f  int
+}
+
+func (a aacCfg) want() string {
+	ch, ef := 2, 0
+	if a.ot == 29 {
+		ch = 1
+	}
+	if a.ot != 2 {
+		ef = 2 * a.f
+	}
+	return fmt.Sprintf("%d %d %d %d %s %s", a.ot, ch, a.f, ef, b01(a.ot != 2), b01(a.ot == 29))
+}
+
+func aacSeqLine(seq [][]aacCfg) string {
+	var inits []string
+	for _, in := range seq {
+		var t []string
+		for _, a := range in {
+			t = append(t, fmt.Sprintf("%d:%d", a.ot, a.f))
+		}
+		inits = append(inits, strings.Join(t, ","))
+	}
+	return "aacseq " + strings.Join(inits, "|")
+}
+
+func ascOfTrak(trak *mp4.TrakBox) string {
+	stsd := trak.Mdia.Minf.Stbl.Stsd
+	if stsd.Mp4a == nil || stsd.Mp4a.Esds == nil {
+		return "no-esds"
+	}
+	dsi := stsd.Mp4a.Esds.DecConfigDescriptor.DecSpecificInfo
+	asc, err := aac.DecodeAudioSpecificConfig(bytes.NewReader(dsi.DecConfig))
+	if err != nil {
+		return "err:" + err.Error() + " decConfig=" + hx(dsi.DecConfig)
+	}
+	return fmt.Sprintf("%d %d %d %d %s %s", asc.ObjectType, asc.ChannelConfiguration, asc.SamplingFrequency,
+		asc.ExtensionFrequency, b01(asc.SBRPresentFlag), b01(asc.PSPresentFlag))
+}
+
+// aacSeqRun builds the whole sequence, then inspects. Returns "" or (stage, got, want) of the first entry that is wrong.
+func aacSeqRun(seq [][]aacCfg) (where, got, want string) {
+	inits := make([]*mp4.InitSegment, len(seq))
+	for i, in := range seq {
+		inits[i] = mp4.CreateEmptyInit()
+		for j, a := range in {
+			inits[i].AddEmptyTrack(uint32(a.f), "audio", "en")
+			if err := inits[i].Moov.Traks[j].SetAACDescriptor(a.ot, a.f); err != nil {
+				return fmt.Sprintf("build init %d track %d", i+1, j+1), "err:" + err.Error(), a.want()
+			}
+		}
+	}
+	for i, in := range seq {
+		for j, a := range in {
+			if g := ascOfTrak(inits[i].Moov.Traks[j]); g != a.want() {
+				return fmt.Sprintf("in memory, init %d track %d of %d", i+1, j+1, len(in)), g, a.want()
+			}
+		}
+	}
+	for i, in := range seq {
+		var buf bytes.Buffer
+		if err := inits[i].Encode(&buf); err != nil {
+			return fmt.Sprintf("encode init %d", i+1), "err:" + err.Error(), "bytes"
+		}
+		file, err := mp4.DecodeFile(bytes.NewReader(buf.Bytes()))
+		if err != nil || file.Init == nil || len(file.Init.Moov.Traks) != len(in) {
+			return fmt.Sprintf("decode init %d", i+1), fmt.Sprintf("err:%v", err), fmt.Sprintf("%d tracks", len(in))
+		}
+		for j, a := range in {
+			if g := ascOfTrak(file.Init.Moov.Traks[j]); g != a.want() {
+				return fmt.Sprintf("decoded, init %d track %d of %d", i+1, j+1, len(in)), g, a.want()
+			}
+		}
+	}
+	return "", "", ""
+}
+
+func genC18AACSeq(c *Ctx, freqs []int) {
+	var dom []aacCfg
+	for _, ot := range []byte{2, 5, 29} {
+		for _, f := range freqs {
+			if f > 0 && f < 1<<23 {
+				dom = append(dom, aacCfg{ot, f})
+			}
+		}
+	}
+	run := func(seq [][]aacCfg, bucket string) {
+		req := aacSeqLine(seq)
+		var where, got, want string
+		if p := safe(func() { where, got, want = aacSeqRun(seq) }); p != "" {
+			where, got, want = "panic", p, "no panic"
+		}
+		c.Eval(req)
+		c.Count(bucket)
+		if where != "" {
+			c.Fail("C18-aac-sample-entry-sequence", "an AAC sample entry no longer decodes back to its configuration once further AAC sample entries have been built ("+where+")", req, got, want)
+		}
+	}
+	// the complete domain as the tracks of one init (both orders), and as one init per configuration
+	rev := make([]aacCfg, len(dom))
+	single := make([][]aacCfg, len(dom))
+	for i, a := range dom {
+		rev[len(dom)-1-i] = a
+		single[i] = []aacCfg{a}
+	}
+	run([][]aacCfg{dom}, "aacseq.domain")
+	run([][]aacCfg{rev}, "aacseq.domain")
+	run(single, "aacseq.domain")
+	// random sequences: 2..8 configurations, each either a further track of the current init or the first track of a new one
+	for i := 0; i < c.N(400, 6000); i++ {
+		n := 2 + c.R.Intn(7)
+		seq := [][]aacCfg{{}}
+		for k := 0; k < n; k++ {
+			if k > 0 && c.R.Intn(3) == 0 {
+				seq = append(seq, []aacCfg{})
+			}
+			seq[len(seq)-1] = append(seq[len(seq)-1], dom[c.R.Intn(len(dom))])
+		}
+		run(seq, "aacseq.random")
+		if i == 0 {
+			c.Sample(aacSeqLine(seq))
+		}
+	}
 }
 
 func aacEntry(ot byte, f int) string {
